@@ -238,6 +238,11 @@ func c09CheckErr(name string, set map[string]c09Var, srcs map[string]string, e e
 					return "" // form M
 				}
 				if tv.Kind == 0 && c09OnCycleVia(set, e.File, tgt) {
+					if tgt == e.File && len(ch) == 1 {
+						// pinned form: the report of a script using itself is followed by that call site as the
+						// (one-element) chain of call sites, like every other cycle report
+						return "single entry for a script that uses itself: the call site does not follow the cycle report"
+					}
 					return "" // form C with the closing call as root cause
 				}
 				if len(ch) == 1 {
